@@ -1,6 +1,9 @@
 """C08 - type size, alignment and field offsets agree wherever they are computed."""
 import json, os, re, collections
+import sys
 import vlib, e2e
+
+sys.path.insert(0, os.path.dirname(os.path.abspath(__file__)))
 
 H = os.path.join(os.path.dirname(os.path.abspath(__file__)), "harness")
 
@@ -204,6 +207,74 @@ def run_e2e_zero_tail(ck):
     return len(lb)
 
 
+def run_generic_e2e(ck):
+    """compiled program (llgo) vs its own folded constants / descriptors / pointer differences and vs the reference
+    toolchain, for the NON-constant unsafe.Sizeof/Alignof/Offsetof of generic code (ssa BuiltinCall).
+    Runs in a worker thread; returns (n lines, [(key, what, replay)], broken or None)."""
+    import genprog
+    try:
+        L = e2e.LLGo(ck)
+        if not L.ok:
+            return 0, [], ("e2e:llgo-build", L.buildlog[-1000:])
+        d = os.path.join(ck.work, "prog_generic")
+        e2e.write_module(d, {"main.go": genprog.generate()})
+        rc, out = L.build(d, os.path.join(ck.work, "generic.llgo"))
+        rc2, out2 = e2e.go_build(d, os.path.join(ck.work, "generic.go"))
+        if rc != 0 or rc2 != 0:
+            return 0, [], ("e2e:build-generic", (out + out2)[-1500:])
+        _, _, a = L.run_bin(os.path.join(ck.work, "generic.llgo"))
+        _, _, b = e2e.run_plain(os.path.join(ck.work, "generic.go"))
+    except Exception as ex:    # noqa: BLE001
+        return 0, [], ("e2e:generic", repr(ex))
+
+    def parse(txt):
+        o = {}
+        for line in txt.splitlines():
+            m = re.match(r"(G|K|D|A) (\d+) ([\d ]+)$", line) or re.match(r"(GO|KO|PO) (\d+ \d+) ([\d ]+)$", line)
+            if m:
+                o[(m.group(1), m.group(2))] = [int(x) for x in m.group(3).split()]
+        return o
+    la, lb = parse(a), parse(b)
+    if "DONE" not in a or "DONE" not in b or set(la) != set(lb):
+        return 0, [], ("e2e:run-generic", "llgo %d lines, reference %d lines; tail %s" % (len(la), len(lb), a[-200:]))
+    T = genprog.TYPES
+    viols = []
+
+    def flags(idx):
+        xs = [T[int(x)][2] for x in idx.split()]
+        fl = "".join(xs)
+        if len(xs) == 2 and "e" in xs[1] and "e" not in xs[0]:
+            fl += "z"       # P[A, B] with a zero-size B behind a sized A ends in a zero-size tail itself
+        return fl
+
+    def names(idx):
+        return ", ".join(T[int(x)][0] for x in idx.split())
+
+    def report(generic_key, idx, what, replay):
+        viols.append(("e2e-zero-size-tail" if "z" in flags(idx) else generic_key, what, replay))
+
+    for (tag, idx), v in sorted(la.items()):
+        if tag == "G":
+            k, dsc, arr = la[("K", idx)], la.get(("D", idx)), la[("A", idx)]
+            if v != k or (dsc is not None and dsc != k) or arr != [v[0]]:
+                report("generic-sizeof-alignof-disagrees-with-constant", idx,
+                       "type %s = %s: generic Sizeof/Alignof/field Alignof %s, folded constants %s, descriptor Size_/Align_/FieldAlign_ %s, "
+                       "array stride %s" % (names(idx), T[int(idx)][1].replace("\n", " ").replace("\t", ""), v, k, dsc, arr),
+                       {"type": T[int(idx)][:2], "generic": v, "constant": k, "descriptor": dsc, "stride": arr})
+        if tag == "GO":
+            k, po = la[("KO", idx)], la[("PO", idx)]
+            if v != k or po != [v[0]]:
+                report("generic-offsetof-disagrees-with-constant", idx,
+                       "P[%s]: generic Offsetof(p.b)/Sizeof(p) %s, folded constants %s, &p.b-&p %s" % (names(idx), v, k, po),
+                       {"types": names(idx), "generic": v, "constant": k, "ptrdiff": po})
+        # the reference toolchain (func values are two words here by design; zero-size tails are the recorded finding)
+        if "f" not in flags(idx) and "z" not in flags(idx) and v != lb[(tag, idx)]:
+            viols.append(("layout-differs-from-reference-toolchain",
+                          "%s %s (%s): compiled program prints %s, reference toolchain %s" % (tag, idx, names(idx), v, lb[(tag, idx)]),
+                          {"line": tag + " " + idx, "types": names(idx), "llgo": v, "go": lb[(tag, idx)]}))
+    return len(la), viols, None
+
+
 def run_harness(ck, n):
     out = os.path.join(ck.work, "c08.jsonl")
     ovp = os.path.join(ck.work, "overlay_c08_ssa.json")
@@ -235,6 +306,9 @@ def run(ck):
     ck.phase("coq")
 
     n = {"quick": 700, "thorough": 20000}[ck.tier]
+    from concurrent.futures import ThreadPoolExecutor
+    pool = ThreadPoolExecutor(1)
+    fut = pool.submit(run_generic_e2e, ck)      # end-to-end part builds while the in-process harness runs
     recs = run_harness(ck, n)
     ck.phase("harness")
     lay = [r for r in recs if r["kind"] == "lay"]
@@ -289,6 +363,15 @@ def run(ck):
         ck.correspondence_broken("C08.Model/observe", {"n_mismatch": nmodel_bad})
     ngcc = gcc_layout(ck, lay)
     ck.phase("gcc")
+    ngen, gviols, gbroken = fut.result()
+    pool.shutdown()
+    if gbroken:
+        ck.correspondence_broken(gbroken[0], gbroken[1])
+    for k, w, r in gviols:
+        ck.violation(k, w, r)
+    ngcc += ngen
+    ck.cov["generic_e2e_lines"] = ngen
+    ck.phase("generic-e2e")
     if ck.tier == "thorough":
         ngcc += run_e2e_zero_tail(ck)
         ck.phase("e2e")
@@ -298,5 +381,8 @@ def run(ck):
     ck.cov["rule"] = ("boundary list (every scalar, zero-size tails, nested padding, func values in arrays/structs, pointer-then-scalar) + "
                       "random type trees (depth<=4, <=6 fields, array lengths {0,1,2,3,4,7}) built as go/types values, each queried on the real "
                       "goProgram (types.Sizes), Program.SizeOf/OffsetOf (LLVM data layout) and abi.Builder for amd64 arm64 arm 386 wasm; "
-                      "every record compared with the Coq model (vm_compute) and checked for three-way agreement")
+                      "every record compared with the Coq model (vm_compute) and checked for three-way agreement; plus a compiled println-only "
+                      "program: generic SizeOf[T]/AlignOf[T]/field Alignof and Offsetof(p.b)/Sizeof of P[A,B] (the non-constant BuiltinCall "
+                      "path) for 47 boundary types and 226 pairs vs the folded constants, the descriptor words, pointer differences and the "
+                      "reference toolchain")
     return ck.finish()
